@@ -235,7 +235,24 @@ pub fn apply_child_op(s: &mut Sim, pid: i32, op: &mut ChildOp) -> (i64, i32) {
         ChildOp::Read { .. } => (-1, libc::EBADF),
         ChildOp::Exit { code } => {
             s.k.proc_mut(pid).launch_failed = true;
-            s.k.exit_proc(pid, ExitCause::Code(*code));
+            let lag = s.k.faults.exit_lag_ns;
+            if lag > 0 && s.k.proc(pid).state == PState::PreExec {
+                // _exit() has been called, the process lingers while it is torn down
+                s.k.fcount.hit("exit_lag");
+                let until = s.k.now + lag;
+                let p = s.k.proc_mut(pid);
+                p.prog = vec![crate::prog::Op::Exit { code: *code }];
+                p.cur = Default::default();
+                p.state = PState::Sleeping { until };
+                // a dying process holds no descriptors any more
+                let fds: Vec<i32> = s.k.proc(pid).fds.keys().cloned().collect();
+                for fd in fds {
+                    let _ = s.k.k_close(pid, fd);
+                }
+                s.k.touch();
+            } else {
+                s.k.exit_proc(pid, ExitCause::Code(*code));
+            }
             (0, 0)
         }
         ChildOp::Escaped { how } => {
@@ -594,6 +611,7 @@ fn eintr_fault(s: &mut Sim, t: u8, kind: u8) -> bool {
         s.k.probe(match kind {
             1 => "eintr_poll",
             2 => "eintr_pipe_io",
+            8 => "eintr_sleep",
             _ => "eintr_waitpid",
         });
         true
@@ -887,18 +905,29 @@ pub unsafe extern "C" fn clock_gettime(clk: c_int, ts: *mut libc::timespec) -> c
     }
 }
 
-unsafe fn sleep_impl(t: u8, ns: u64, absolute: bool) {
+/// Returns the time left when the sleep was interrupted by a signal handler (EINTR), else None.
+unsafe fn sleep_impl(t: u8, ns: u64, absolute: bool) -> Option<u64> {
     par_enter(t, Call::Sleep);
     if poisoned() {
-        return;
+        return None;
     }
     let start = sim().k.now;
-    let deadline = if absolute { ns } else { start + ns };
+    let deadline = if absolute { ns } else { start.saturating_add(ns) };
+    let mut left = None;
     if deadline > start {
-        sched_block(t, Wait::Timer, Some(deadline));
+        let total = deadline - start;
+        if total >= 4 && eintr_fault(sim(), t, 8) {
+            // the signal arrives some way into the sleep
+            let part = total / 4 * (1 + sim().ch.choose(3) as u64);
+            sched_block(t, Wait::Timer, Some(start + part));
+            left = Some(deadline.saturating_sub(sim().k.now));
+        } else {
+            sched_block(t, Wait::Timer, Some(deadline));
+        }
     }
     let end = sim().k.now;
-    par_log(t, Call::Sleep, [ns as i64, absolute as i64, 0], (end - start) as i64);
+    par_log(t, Call::Sleep, [ns as i64, absolute as i64, left.is_some() as i64], (end - start) as i64);
+    left
 }
 
 #[no_mangle]
@@ -909,8 +938,17 @@ pub unsafe extern "C" fn nanosleep(req: *const libc::timespec, rem: *mut libc::t
         Ctx::Par(t) => {
             let _g = Guard::new();
             let ns = (*req).tv_sec as u64 * 1_000_000_000 + (*req).tv_nsec as u64;
-            sleep_impl(t, ns, false);
-            0
+            match sleep_impl(t, ns, false) {
+                None => 0,
+                Some(left) => {
+                    if !rem.is_null() {
+                        (*rem).tv_sec = (left / 1_000_000_000) as i64;
+                        (*rem).tv_nsec = (left % 1_000_000_000) as i64;
+                    }
+                    set_errno(libc::EINTR);
+                    -1
+                }
+            }
         }
     }
 }
@@ -923,8 +961,18 @@ pub unsafe extern "C" fn clock_nanosleep(clk: c_int, flags: c_int, req: *const l
         Ctx::Par(t) => {
             let _g = Guard::new();
             let ns = ((*req).tv_sec as u64).saturating_mul(1_000_000_000).saturating_add((*req).tv_nsec as u64);
-            sleep_impl(t, ns, flags & libc::TIMER_ABSTIME != 0);
-            0
+            let abs = flags & libc::TIMER_ABSTIME != 0;
+            match sleep_impl(t, ns, abs) {
+                None => 0,
+                Some(left) => {
+                    if !abs && !rem.is_null() {
+                        (*rem).tv_sec = (left / 1_000_000_000) as i64;
+                        (*rem).tv_nsec = (left % 1_000_000_000) as i64;
+                    }
+                    // clock_nanosleep returns the error number itself
+                    libc::EINTR
+                }
+            }
         }
     }
 }
@@ -1075,6 +1123,87 @@ pub unsafe extern "C" fn wait4(pid: pid_t, status: *mut c_int, options: c_int, r
         Ctx::Par(t) => {
             let _g = Guard::new();
             wait_impl(t, pid, status, options)
+        }
+    }
+}
+
+/// waitid(): answered by the simulated process table (P_PID / P_ALL; WEXITED, WSTOPPED, WCONTINUED,
+/// WNOHANG, WNOWAIT) - never by the real kernel with a simulated pid.
+#[no_mangle]
+pub unsafe extern "C" fn waitid(idtype: libc::idtype_t, id: libc::id_t, info: *mut libc::siginfo_t, options: c_int) -> c_int {
+    match ctx() {
+        Ctx::Real => real!(waitid: fn(libc::idtype_t, libc::id_t, *mut libc::siginfo_t, c_int) -> c_int)(idtype, id, info, options),
+        Ctx::Child => {
+            set_errno(libc::ECHILD);
+            -1
+        }
+        Ctx::Par(t) => {
+            let _g = Guard::new();
+            par_enter(t, Call::Waitpid);
+            let pid: i32 = if idtype == libc::P_PID { id as i32 } else { -1 };
+            loop {
+                if poisoned() {
+                    set_errno(POISON_ERRNO);
+                    return -1;
+                }
+                let s = sim();
+                // candidates and their reportable state
+                let cands: Vec<i32> = s.k.procs.values().filter(|p| p.ppid == PARENT_PID && (pid == -1 || p.pid == pid)).map(|p| p.pid).collect();
+                if cands.is_empty() {
+                    return fin(t, Call::Waitpid, [pid as i64, options as i64, 2], Err(libc::ECHILD)) as c_int;
+                }
+                let mut found: Option<(i32, i32, i32)> = None; // (pid, si_code, si_status)
+                for c in &cands {
+                    let p = s.k.proc(*c);
+                    if let (true, PState::Zombie { status }) = (options & libc::WEXITED != 0, p.state.clone()) {
+                        let (code, st) = if status & 0x7f == 0 { (libc::CLD_EXITED, (status >> 8) & 0xff) } else { (libc::CLD_KILLED, status & 0x7f) };
+                        found = Some((*c, code, st));
+                        break;
+                    }
+                    if options & libc::WSTOPPED != 0 && p.stopped && p.stop_unreported != 0 {
+                        found = Some((*c, libc::CLD_STOPPED, p.stop_unreported));
+                        break;
+                    }
+                    if options & libc::WCONTINUED != 0 && p.cont_unreported {
+                        found = Some((*c, libc::CLD_CONTINUED, SIGCONT));
+                        break;
+                    }
+                }
+                if let Some((c, code, st)) = found {
+                    if !info.is_null() {
+                        std::ptr::write_bytes(info as *mut u8, 0, std::mem::size_of::<libc::siginfo_t>());
+                        (*info).si_signo = libc::SIGCHLD;
+                        (*info).si_code = code;
+                        // si_pid, si_uid, si_status live in the union after the three ints (+ padding on 64 bit)
+                        let base = info as *mut i32;
+                        *base.add(4) = c;
+                        *base.add(5) = 0;
+                        *base.add(6) = st;
+                    }
+                    if options & libc::WNOWAIT == 0 {
+                        match code {
+                            x if x == libc::CLD_EXITED || x == libc::CLD_KILLED => s.k.reap(c, Ent::Par(t)),
+                            x if x == libc::CLD_STOPPED => s.k.proc_mut(c).stop_unreported = 0,
+                            _ => s.k.proc_mut(c).cont_unreported = false,
+                        }
+                    }
+                    return fin(t, Call::Waitpid, [pid as i64, options as i64, 2], Ok(0)) as c_int;
+                }
+                if options & libc::WNOHANG != 0 {
+                    if !info.is_null() {
+                        std::ptr::write_bytes(info as *mut u8, 0, std::mem::size_of::<libc::siginfo_t>());
+                    }
+                    return fin(t, Call::Waitpid, [pid as i64, options as i64, 2], Ok(0)) as c_int;
+                }
+                let mut fl = 0;
+                if options & libc::WSTOPPED != 0 {
+                    fl |= libc::WUNTRACED;
+                }
+                if options & libc::WCONTINUED != 0 {
+                    fl |= libc::WCONTINUED;
+                }
+                sched_block(t, Wait::Child(pid, fl), None);
+            }
         }
     }
 }
